@@ -601,3 +601,11 @@ Theorem edge_endpoints_are_read_introns : forall reads ops s, run (init reads) o
 Proof. intros reads ops s Rn v A. pose proof (inv_run _ _ _ _ (inv_init reads) Rn) as H. apply In_read_introns.
   unfold endpoints in A. apply in_app_or in A. destruct A as [A|A]; apply in_map_iff in A; destruct A as ([a b] & E & A); cbn in E; subst;
   destruct (i_edges _ _ H _ _ A); assumption. Qed.
+
+(* every intron the system has classified - vertex, key of the correction map or discarded - is a corrected intron of a collected read:
+   in particular the keys that defaultdict look-ups re-create in clustered_introns *)
+Theorem classified_are_read_introns : forall reads ops s, run (init reads) ops = Some s ->
+  forall v, In v (vert s ++ keys (smap s) ++ disc s) -> exists r, In r (collected reads) /\ In v r.
+Proof. intros reads ops s Rn v A. pose proof (inv_run _ _ _ _ (inv_init reads) Rn) as H. apply In_read_introns.
+  apply in_app_or in A. destruct A as [A|A]; [exact (i_vert _ _ H _ A)|]. apply in_app_or in A. destruct A as [A|A]; [|exact (i_disc _ _ H _ A)].
+  apply keys_in in A. destruct A as (x & A). exact (proj1 (i_map _ _ H _ _ A)). Qed.
